@@ -9,6 +9,7 @@ Helper lemmas: `NoulithModel/Lemmas/C15Basic.lean`.
 -/
 import NoulithModel.Lemmas.C15Basic
 import NoulithModel.Lemmas.C15Float
+import NoulithModel.Impl.Parse
 
 namespace Noulith.C15
 open Noulith Noulith.Lex Noulith.LitSpec
@@ -647,5 +648,34 @@ theorem bytes_hex_escape_refuted : ¬ bytes_literal_exact_statement := by
   simp only [this, Bool.false_eq_true, if_false, stripComments_single (.bytesLit _) (by simp), atomLit, evalLit] at h1
   revert h1
   decide
+
+/-! ## 7. The parser
+
+`Impl/Parse.lean` is a recursive-descent recogniser with the control flow of `Parser` in core.rs; it
+is total by construction (structural recursion on a fuel argument).  What is proved here is only that
+its three outcomes are exhaustive and what happens on the empty program; that the fuel `fuelFor` is
+always sufficient is stated and left unproved (the correspondence run reports any out-of-fuel
+answer as a disagreement). -/
+
+/-- the full-strength termination statement for the parser model: with the linear fuel `fuelFor`
+the recursive descent never runs out of fuel, for any source text.  NOT proved. -/
+def parse_terminates_statement : Prop := ∀ code : List Char, Parse.parse code ≠ .outOfFuel
+
+/-- the empty program (no tokens but comments and blanks) parses: `Ok(None)` -/
+theorem parse_empty_program (code : List Char) (h : (stripComments (lex code)).1 = []) :
+    Parse.parse code = .ok := by
+  simp [Parse.parse, Parse.parseTokens, h]
+
+/-- a program that is a single literal token parses (one step of `expression` … `atom`): the model
+agrees with `parseEvalLit` that these are programs -/
+theorem parse_int_literal (f : IntForm) (hf : f.valid = true) (n : Nat) :
+    Parse.parse (renderInt f n) = .ok := by
+  have h := int_literal_token f hf n [] (intStop_nil f)
+  rw [List.append_nil, lex_nil] at h
+  have hs : (stripComments (lex (renderInt f n))).1 = [.intLit n] := by
+    rw [h]; exact stripComments_single _ (by simp)
+  unfold Parse.parse
+  simp only [hs]
+  rfl
 
 end Noulith.C15
